@@ -21,6 +21,42 @@ static void add_ext(ref_hdr *f, int type, const void *data, size_t len)
 	f->ext[f->next].type = (uint8_t) type; f->ext[f->next].data = data; f->ext[f->next].len = len; ++f->next;
 }
 
+/* An archive of three richly decorated members (levels 2, 1, 0) read to the end through another reader in this process before
+ * the case's own archive (every 4th case, and always when a single case is replayed): nothing of one archive's headers may be
+ * carried into the next reader. */
+static void pollute_headers(void)
+{
+	static uint8_t P[4096];
+	static size_t pn;
+	mem_stream ms;
+	LHAInputStream *st;
+	LHAReader *rd;
+	if (!pn) {
+		ref_hdr f;
+		static const uint8_t path[] = "very\xFF" "long\xFF" "directory\xFF" "chain\xFF", uid[4] = { 0xE8, 0x03, 0xE9, 0x03 }, perm[2] = { 0xED, 0x81 }, ts[4] = { 0x80, 0x43, 0x3D, 0x4B };
+		hdr_init(&f, 2, "-lh0-");
+		add_ext(&f, 1, "a-long-file-name.with.ext|../../target/of/link", 46);
+		add_ext(&f, 2, path, sizeof path - 1);
+		add_ext(&f, 0x50, perm, 2); add_ext(&f, 0x51, uid, 4); add_ext(&f, 0x52, "groupname", 9); add_ext(&f, 0x53, "username", 8); add_ext(&f, 0x54, ts, 4);
+		f.packed = 5; f.size = 5; f.crc = ref_crc16(0, DATA5, 5);
+		pn = ref_hdr_encode(&f, P, sizeof P);
+		memcpy(P + pn, DATA5, 5); pn += 5;
+		hdr_init(&f, 1, "-lh0-");
+		f.name = (const uint8_t *) "DIR\\SUB\\NAME.EXT"; f.name_len = 16;
+		add_ext(&f, 2, path, sizeof path - 1); add_ext(&f, 0x50, perm, 2); add_ext(&f, 0x51, uid, 4);
+		f.packed = 5; f.size = 5; f.crc = ref_crc16(0, DATA5, 5);
+		{ size_t k = ref_hdr_encode(&f, P + pn, sizeof P - pn); pn += k; memcpy(P + pn, DATA5, 5); pn += 5; }
+		hdr_init(&f, 0, "-lhd-");
+		f.name = (const uint8_t *) "SOME\\DIRECTORY\\"; f.name_len = 15;
+		{ size_t k = ref_hdr_encode(&f, P + pn, sizeof P - pn); pn += k; }
+	}
+	st = mem_open(&ms, P, pn, 1);
+	rd = lha_reader_new(st);
+	while (lha_reader_next_file(rd) != NULL);
+	lha_reader_free(rd);
+	lha_input_stream_free(st);
+}
+
 /* Feed an archive and check the first returned header against the record.  what: 1 = also check C11 invariant,
  * 2 = require agreement with normalise, 4 = check that the member data follows the header */
 static void check_record(const ref_hdr *f, const uint8_t *data, size_t dlen, int what, const char *site_prefix)
@@ -48,6 +84,24 @@ static void check_record(const ref_hdr *f, const uint8_t *data, size_t dlen, int
 		return;
 	}
 	wf = ref_hdr_normalise(&back, &n);
+	if ((VF.index & 3) == 2 || VF.only >= 0) pollute_headers();
+	if ((VF.index & 3) == 1) {
+		/* the same archive from a source without a skip callback (the library reads over what it would skip); the answers stay
+		 * full: the reader takes a short answer of its read callback for the end of the input, which no listed property forbids */
+		uint64_t h1, h2;
+		st = mem_open(&ms, ABUF, hl + dlen, 0);
+		rd = lha_reader_new(st);
+		h1 = header_hash(lha_reader_next_file(rd));
+		lha_reader_free(rd); lha_input_stream_free(st);
+		st = mem_open(&ms, ABUF, hl + dlen, 1);
+		rd = lha_reader_new(st);
+		h2 = header_hash(lha_reader_next_file(rd));
+		lha_reader_free(rd); lha_input_stream_free(st);
+		if (h1 != h2) {
+			snprintf(site, sizeof site, "%s-stream-kind", site_prefix);
+			vf_viol(site, "the header returned from callbacks without a skip function differs from the one returned with it");
+		}
+	}
 	st = mem_open(&ms, ABUF, hl + dlen, 1);
 	rd = lha_reader_new(st);
 	h = lha_reader_next_file(rd);
